@@ -292,7 +292,7 @@ func scenarioC10(c *RunCtx) {
 		Prof:         OptProfile{MinPop: 8, MaxPop: maxPop, Parallel: 2, Structural: 1, ManySpecies: t.Chance("manySpecies", 1, 3), AllowStolen: true, SmallDropOff: t.Chance("smallDropOff", 1, 2), ActivationSwarm: true},
 		Genome:       GenomeSpec{AllowDisabled: true, MaxHidden: 3},
 		AllowShipped: true,
-		Landscapes:   []int{LandDistinct, LandStructural, LandUniform, LandHeavy, LandOscillate},
+		Landscapes:   []int{LandDistinct, LandStructural, LandUniform, LandHeavy, LandOscillate, LandNearlyEqual},
 	}
 	var w *World
 	c.LibSoft("construct", func() { w = NewWorld(t, spec) })
